@@ -45,12 +45,18 @@ CASES = [
  ("C19", "basic/random.py", "        if n < 0 or n > N:\n            n = N", "        if not (0 <= n <= N):\n            n = N", "keep"),
  ("C19", "stochastic/_ranker.py", "        if n < 0 or n > N:\n            n = N", "        if not (0 < n <= N):\n            n = N", "break"),
 ]
-import py2lean_np, py2lean_scatter
+import py2lean_np, py2lean_scatter, py2lean_imp
 # other per-run translators: (generated file, obligations module, generator, its Unsupported)
-OTHER = {"C06np": ("NpC06.lean", "LK.Proofs.NpC06", py2lean_np.translate_dcg, py2lean_np.Unsupported),
+OTHER = {"C08imp": ("ImpC08.lean", "LK.Proofs.ImpC08", py2lean_imp.translate, py2lean_imp.Unsupported),
+         "C06np": ("NpC06.lean", "LK.Proofs.NpC06", py2lean_np.translate_dcg, py2lean_np.Unsupported),
          "C08np": ("NpC08.lean", "LK.Proofs.NpC08", py2lean_np.translate_learn, py2lean_np.Unsupported),
          "C04sc": ("ScatterC04.lean", "LK.Proofs.ScatterC04", py2lean_scatter.generate, py2lean_scatter.Unsupported)}
 CASES += [
+ ("C08imp", "basic/bias.py", "                    uoff[r_mask] -= self.item_biases[r_idxes[r_mask]]", "                    uoff -= self.item_biases[r_idxes]", "break"),
+ ("C08imp", "basic/bias.py", "            if ratings is not None:\n                assert user_items is not None", "            if ratings is not None and user_id is None:\n                assert user_items is not None", "break"),
+ ("C08imp", "basic/bias.py", "            scores[mask] += self.item_biases[idxes[mask]]", "            scores[mask] -= self.item_biases[idxes[mask]]", "break"),
+ ("C08imp", "basic/bias.py", "                    np.sum(np.isfinite(uoff)) + entity_damping(self.damping, \"user\")", "                    np.sum(np.isfinite(uoff))", "break"),
+ ("C08imp", "basic/bias.py", "                    user_bias = self.user_biases[uno]\n", "                    user_bias = self.user_biases[uno]\n                    _logger.debug(\"found\")\n", "keep"),
  ("C06np", "metrics/ranking/_dcg.py", "    np.maximum(disc, 1, out=disc)\n    np.reciprocal(disc, out=disc)", "    np.reciprocal(disc, out=disc)\n    np.maximum(disc, 1, out=disc)", "break"),
  ("C06np", "metrics/ranking/_dcg.py", "    np.maximum(disc, 1, out=disc)\n", "", "break"),
  ("C06np", "metrics/ranking/_dcg.py", "    disc = np.maximum(disc, 1)\n    disc = np.reciprocal(disc)", "    np.maximum(disc, 1, out=disc)\n    np.reciprocal(disc, out=disc)", "keep"),
